@@ -86,6 +86,7 @@ def eval_handler(f, variant, fail=None):
                 return E.Tok("result:subscribers_count")
             return E.UNIT
         if name in ("inc", "inc_by") and "Counter" in full:
+            log.append(("count", names[0].split(".")[-1], names[1:]))      # a metric counting applied entries
             return E.UNIT
         if name in ("spawn_local", "spawn") and names and "tasks" in names[0]:
             log.append(("spawn", name, names[1:]))
@@ -216,8 +217,10 @@ def check_handler(ctx, rule, variant):
         done_after = [x for x in steps2 if tuple(x) in [tuple(w) for w in want[i + 1:]] and x[0] != "gate" and not (k and i < k and want.index(tuple(x)) < k)]
         told = (len(replies2) == 1 and replies2[0].startswith("Err(")) or (sp.get("stream") and len(streams2) == 1 and streams2[0][2][1].startswith("Err("))
         sets2 = [x for x in log2 if x[0] == "set"]
-        ctx.check(got2 == "Ok(())" and not done_after and bool(told) and not sets2, rule, HANDLER, "request[%s,%s-fails]" % (variant, s[1]),
-                  "returns %s; steps %s; replies %s%s; spec: nothing of the request is carried out after the failed step, the caller is told the error" % (got2, steps2, replies2 or [x[2] for x in streams2], (" state writes %s" % sets2) if sets2 else ""), hb.sp)
+        counted2 = [x[1] for x in log2 if x[0] == "count"]
+        ctx.check(got2 == "Ok(())" and not done_after and bool(told) and not sets2 and not counted2, rule, HANDLER, "request[%s,%s-fails]" % (variant, s[1]),
+                  "returns %s; steps %s; replies %s%s%s; spec: nothing of the request is carried out after the failed step, nothing is counted as applied, the caller is told the error" % (
+                      got2, steps2, replies2 or [x[2] for x in streams2], (" state writes %s" % sets2) if sets2 else "", (" counted %s" % counted2) if counted2 else ""), hb.sp)
 
 
 def _camel(m):
